@@ -141,12 +141,12 @@ struct C17 : Prop {
 	}
 
 	cfg::World world;
-	uint64_t known = 0, unknown = 0, nulls = 0, rechecks = 0, snapshot_cmp = 0, released = 0, hot_results = 0, hot_overlapping = 0;
+	uint64_t known = 0, unknown = 0, nulls = 0, rechecks = 0, snapshot_cmp = 0, released = 0, hot_results = 0, hot_overlapping = 0, index_cmp = 0;
 	bool is_hot = false, hot_determined = false;
 	J cal[5];
 
 	void attach(Engine &e) override {
-		world = cfg::from_json(e.plan["world"]); known = unknown = nulls = rechecks = snapshot_cmp = released = hot_results = hot_overlapping = 0;
+		world = cfg::from_json(e.plan["world"]); known = unknown = nulls = rechecks = snapshot_cmp = released = hot_results = hot_overlapping = index_cmp = 0;
 		is_hot = e.plan.has("hot"); hot_determined = false; for (auto &c : cal) c = J();
 	}
 
@@ -171,6 +171,8 @@ struct C17 : Prop {
 	void after_op(Engine &e, OpRec &o) override {
 		if (o.op->gets("op") != "getr") return;
 		if (is_hot) { hot_result(e, o, o.op->gets("tag")); return; }
+		{ const std::string &fn = o.op->gets("fn"); if (fn.size() > 6 && fn.compare(fn.size() - 6, 6, "_index") == 0 && (*o.op)["s"][0].is_str() && (*o.op)["s"][0].str().compare(0, 6, "nosuch") == 0 && o.result.geti("v") != -1)
+			e.violate("INDEX_OF_UNKNOWN_ID", "bidib_get_" + fn, "bidib_get_" + fn + "(" + (*o.op)["s"][0].str() + ") = " + std::to_string(o.result.geti("v")) + " for an id that is not configured (documented: -1)"); }
 		const J &s = (*o.op)["s"];
 		bool n = false, u = false;
 		for (size_t i = 0; i < s.size(); i++) { if (s[i].is_null()) n = true; else if (s[i].str().compare(0, 6, "nosuch") == 0 || s[i].str() == "nofunc") u = true; }
@@ -196,6 +198,16 @@ struct C17 : Prop {
 		for (auto &kv : st["reversers"].o) chk("reverser_state", kv.first, kv.second, single("reverser_state", kv.first), "avail", "data");
 		for (auto &kv : st["trains"].o) chk("train_state", kv.first, kv.second, single("train_state", kv.first), "known", "data");
 		for (auto &kv : st["boosters"].o) chk("booster_state", kv.first, kv.second, single("booster_state", kv.first), "known", "data");
+		// the index getters name positions in the snapshot's arrays
+		{
+			sim::ApiScope api("bidib_get_state");
+			t_bidib_track_state ts = bidib_get_state();
+			auto bad = [&](const char *fn, const char *idv, size_t want, size_t got) { e.violate("SNAPSHOT_VS_GETTER", fn, std::string(fn) + "(" + idv + ") = " + std::to_string((long long) got) + " but the entity is element " + std::to_string(want) + " of the snapshot's array"); };
+			for (size_t i = 0; i < ts.points_board_count; i++) { size_t g = bidib_get_point_state_index(ts.points_board[i].id); if (g != i) bad("bidib_get_point_state_index", ts.points_board[i].id, i, g); index_cmp++; }
+			for (size_t i = 0; i < ts.signals_board_count; i++) { size_t g = bidib_get_signal_state_index(ts.signals_board[i].id); if (g != i) bad("bidib_get_signal_state_index", ts.signals_board[i].id, i, g); index_cmp++; }
+			for (size_t i = 0; i < ts.segments_count; i++) { size_t g = bidib_get_segment_state_index(ts.segments[i].id); if (g != i) bad("bidib_get_segment_state_index", ts.segments[i].id, i, g); index_cmp++; }
+			bidib_free_track_state(ts);
+		}
 		for (auto &kv : st["track_outputs"].o) { J one = single("track_output_state", kv.first); if (!one.getb("known") || one.geti("cs") != kv.second.geti("cs")) e.violate("SNAPSHOT_VS_GETTER", "track_output_state", "track output " + kv.first + ": bidib_get_state says " + kv.second.dump() + ", the single getter " + one.dump()); }
 	}
 
@@ -207,12 +219,18 @@ struct C17 : Prop {
 		e.recheck_retained("after bidib_stop"); rechecks++;
 		released += e.retained.size();
 		e.release_retained();
+		// bidib_free_unique_id_list_query has no getter that produces its argument: a caller-built list (also the empty one) must be released by it
+		for (size_t n : {(size_t) 0, (size_t) 3}) {
+			t_bidib_unique_id_list_query q; q.length = n; q.unique_ids = n ? (t_bidib_unique_id_mod *) malloc(n * sizeof(t_bidib_unique_id_mod)) : NULL;
+			if (n) memset(q.unique_ids, 0, n * sizeof(t_bidib_unique_id_mod));
+			sim::ApiScope api("bidib_free_unique_id_list_query"); bidib_free_unique_id_list_query(q);
+		}
 	}
 	void coverage(Engine &e, J &f) override {
 		f.set("nontrivial", is_hot ? (hot_determined && hot_results > 0) : (known > 0 && unknown > 0 && nulls > 0));
 		f.set("shape", (long long) (pc::shape_hash(e.plan) >> 1));
 		J p = J::obj(); p.set("results_known_id", (long long) known); p.set("results_unknown_id", (long long) unknown); p.set("results_null_id", (long long) nulls);
-		p.set("rechecks", (long long) rechecks); p.set("snapshot_vs_single_comparisons", (long long) snapshot_cmp); p.set("results_freed", (long long) released);
+		p.set("rechecks", (long long) rechecks); p.set("snapshot_vs_single_comparisons", (long long) snapshot_cmp); p.set("index_getter_vs_snapshot_position", (long long) index_cmp); p.set("results_freed", (long long) released);
 		p.set("hot_entity_runs", (long long) (is_hot ? 1 : 0)); p.set("hot_entity_states_reproducible", (long long) (hot_determined ? 1 : 0)); p.set("hot_entity_concurrent_results_judged", (long long) hot_results);
 		f.set("probes", p);
 	}
